@@ -84,6 +84,8 @@ def render_block(stmts, ind, out, in_beh):
             out.append(f"{pad}terminate simulation")
         elif op == "require":
             out.append(f"{pad}require tab({s[1]})")
+        elif op == "requireltl":
+            out.append(f"{pad}require {L.render(s[1])}")
         elif op == "if":
             out.append(f"{pad}if tab({s[1]}):")
             render_block(s[2], ind + 1, out, in_beh)
@@ -264,6 +266,9 @@ DEFAULT_PINS = {
     # records of a sub-scenario stopped by `do ... until/for` are still saved until the
     # parent's next `do`
     "stale_sub_records": True,
+    # a temporal `require` executed in a compose block is first evaluated in the step
+    # that executes it (True) / in the following step (False)
+    "dynltl_starts_now": True,
 }
 
 
@@ -380,6 +385,25 @@ class Ref:
             elif op == "require":
                 if not self.tab(s[1]):
                     raise Reject("reject", inst.name, "require")
+            elif op == "requireltl":
+                # temporal requirement executed in a compose block: it belongs to the
+                # executing scenario and takes effect now
+                S = self.scenario_of(inst)
+                if self.bugs.get("dynltl_ignored") and S is not self.top:
+                    continue  # BUG MODEL: never monitored
+                f = L.tup(s[1])
+                if not L.is_temporal(f):
+                    # an ordinary requirement: checked once, now
+                    if not L.holds(f, [{k: self.tab(k) for k in L.atoms_of(f)}]):
+                        raise Reject("reject", inst.name, "require")
+                    continue
+                if self.pins["dynltl_starts_now"]:
+                    tr = [{k: self.tab(k) for k in L.atoms_of(f)}]
+                    S.ltl.append([f, tr, None])
+                    if self.ltl_rejects_now(f, tr, self.t in self.hints.get("ltl_reject_steps", ())):
+                        raise Reject("ltl", S.name, L.render(f))
+                else:
+                    S.ltl.append([f, [], None])  # first evaluated at the next step
             elif op == "if":
                 r = yield from self.run_block(s[2] if self.tab(s[1]) else s[3], inst)
                 if r is not None:
@@ -550,7 +574,14 @@ class Ref:
         elif op == "termafter":
             S.limit = self.steps_of(st[1], st[2])
         elif op == "ltl":
-            S.ltl.append([L.tup(st[1]), [], None])
+            f = L.tup(st[1])
+            if S is not getattr(self, "top", None) and not L.is_temporal(f):
+                # setup block executed during the simulation: an ordinary requirement
+                # is checked once, now
+                if not L.holds(f, [{k: self.tab(k) for k in L.atoms_of(f)}]):
+                    raise Reject("reject", S.name, "require in setup")
+            else:
+                S.ltl.append([f, [], None])
         elif op == "record":
             S.records.append((st[1], st[2]))
         elif op == "recordinitial":
@@ -626,10 +657,8 @@ class Ref:
             if evlabel:
                 self.emit("ev", evlabel)
             tr.append({k: self.tab(k) for k in L.atoms_of(f)})
-            if not L.can_be_satisfied(f, tr):
-                must = f[0] == "always" and not L.is_temporal(f[1])
-                if must or self.t in self.hints.get("ltl_reject_steps", ()):
-                    raise Reject("ltl", S.name, L.render(f))
+            if self.ltl_rejects_now(f, tr, self.t in self.hints.get("ltl_reject_steps", ())):
+                raise Reject("ltl", S.name, L.render(f))
         # (b) time limit
         if S.limit is not None and S.elapsed >= S.limit:
             return self.stop_scn(S, "timelimit")
@@ -685,9 +714,26 @@ class Ref:
                 # scenario started and stopped without ever being stepped: the trace of
                 # its requirement is empty, finite-trace semantics says nothing
                 raise Unsupported("temporal requirement with empty trace")
-            if not L.holds(f, tr):
+            if not self.ltl_accepts_at_end(f, tr):
                 raise Reject("ltl", S.name, "final:" + L.render(f))
         return reason
+
+    # -- temporal requirement verdicts ------------------------------------------------
+    def ltl_rejects_now(self, f, tr, impl_rejected_here):
+        """Early rejection.  Reference: *required* for `always <non-temporal>` that is
+        false now; *permitted* (follow the implementation) whenever no continuation of the
+        trace can satisfy the formula; forbidden otherwise."""
+        if self.bugs.get("rvltl"):
+            return L.rv_eval(f, tr, 0, not self.bugs.get('rvltl_nobug')) == 1  # BUG MODEL: whatever rv_ltl 0.1.0 says
+        if L.can_be_satisfied(f, tr):
+            return False
+        must = f[0] == "always" and not L.is_temporal(f[1])
+        return must or impl_rejected_here
+
+    def ltl_accepts_at_end(self, f, tr):
+        if self.bugs.get("rvltl"):
+            return L.rv_eval(f, tr, 0, not self.bugs.get('rvltl_nobug')) >= 3  # BUG MODEL
+        return L.holds(f, tr)
 
     def do_scenarios(self, S, names):
         subs = []
@@ -782,10 +828,8 @@ class Ref:
         # a top-level temporal requirement is also evaluated once at scene generation
         for f, _, _ in top.ltl:
             tr0 = [{k: self.tab(k) for k in L.atoms_of(f)}]
-            if not L.can_be_satisfied(f, tr0):
-                must = f[0] == "always" and not L.is_temporal(f[1])
-                if must or self.hints.get("scene_reject"):
-                    return {"kind": "scene-reject", "time": 0, "log": []}
+            if self.ltl_rejects_now(f, tr0, bool(self.hints.get("scene_reject"))):
+                return {"kind": "scene-reject", "time": 0, "log": []}
         for uid in self.objects:
             self.emit("create", self.oname[uid])
         self.start_scn(top, top=True)
